@@ -130,3 +130,20 @@ def layout_nd(rng, a, kind=None):
     big = np.zeros((a.shape[0] * 2,) + a.shape[1:], dtype=a.dtype)
     big[::2] = a
     return big[::2]
+
+
+SPECIAL_SIZES = [8, 9, 10, 16, 17, 31, 32, 33, 63, 64, 65, 127, 128, 129, 255, 256, 257]
+
+
+def pick_n(rng, choices, hi=None):
+    """A size: mostly from the stratified list, sometimes a 'special' size (powers of two and their neighbours, numbers of guesses /
+    classes: sites of fast paths and chunked loops) or a uniform draw - so that no size is systematically avoided."""
+    hi = hi if hi is not None else max(choices)
+    r = rng.random()
+    if r < 0.6:
+        return int(rng.choice(choices))
+    if r < 0.8:
+        ok = [v for v in SPECIAL_SIZES if min(choices) <= v <= hi]
+        if ok:
+            return int(ok[int(rng.integers(len(ok)))])
+    return int(rng.integers(min(choices), hi + 1))
